@@ -320,10 +320,19 @@ static void run_c08(long i, vh_rng *r)
             if (nh == 0) nh = 1;
             for (k = 0; k < nh; ++k) {
                 vd_audio ha; vd_pattern hp; vd_runinfo hi; vh_rng qr;
+                int same_len = vh_chance(r, 0.5) && t.a.n > 0;
                 vd_audio_make(r, lang, vh_chance(r, 0.2) ? 1 : 0, 40000, &ha); vd_pattern_random(r, &hp, 1); if (hp.style == 3 && ha.n > 20000) hp.style = 2;
+                if (same_len && ha.n > 0) {
+                    /* an earlier utterance of exactly the target's length but other content, with every kind of result requested after it:
+                     * whatever is kept per search object (lattice, N-best, alignment, JSON text) must not be served to the target just
+                     * because the frame counts agree */
+                    int16_t *s2 = (int16_t *)calloc((size_t)t.a.n + 1, sizeof(int16_t)); long j;
+                    for (j = 0; j < t.a.n; ++j) s2[j] = ha.s[j % ha.n];
+                    free(ha.s); ha.s = s2; ha.n = t.a.n; hp = t.p;
+                }
                 vh_rng_init(&qr, vh_next(r), 5);
-                vd_run(dl, &ha, r, &hp, poke, &qr, &hi);
-                snprintf(hdesc + strlen(hdesc), sizeof(hdesc) - strlen(hdesc), " {same grammar; %s}", ha.desc);
+                if (vd_run(dl, &ha, r, &hp, poke, &qr, &hi) == 0 && same_len) { record tmp; record_get(dl, &tmp, &hi, want_lat); record_free(&tmp); vh_count("history_utterances_of_the_targets_length_with_all_results_requested", 1); }
+                snprintf(hdesc + strlen(hdesc), sizeof(hdesc) - strlen(hdesc), " {same grammar%s; %s}", same_len ? ", cut/tiled to the target's length, all results requested" : "", ha.desc);
                 vd_audio_free(&ha);
             }
             vh_count("targets_after_history_on_the_same_search_object", 1);
